@@ -178,6 +178,8 @@ structure Part where
   targets : List (List Nat)
   /-- the part's own topology in part-local numbering (`verts = []`), if it has one -/
   topo : Option Mesh
+  /-- one scalar attribute per part vertex (`AttributeSet` of dimension 1), if any -/
+  attr : Option (List Rat) := none
 
 def Part.target (P : Part) (d : Nat) : List Nat := P.targets.getD d []
 
@@ -223,13 +225,47 @@ def topoTargets (M : Mesh) (P : Part) (T : Mesh) (c : Nat) : Option (List Nat) :
             offset M.kind M.nums c s + rule.length * t +
               (match mj with | some j => congLookup M.kind s fd o j | none => k))) (some [])
 
+/-- `Intern::StandardAttribRefineWrapper`: the attribute value of a new part vertex is the mean of the values at the
+    vertices of the part entity it is the midpoint of (only executed for parts with topology `T`) -/
+def fineAttr (T : Mesh) (vals : List Rat) : List Rat :=
+  vals ++ (List.range' 1 T.dim).flatMap fun s =>
+    if refCount T.kind s 0 = 0 then []
+    else (List.range (T.num s)).map fun i =>
+      ((T.tuple s 0 i).map fun v => (1 / (faceCount T.kind s 0 : Rat)) * vals.getD v 0).foldl (· + ·) 0
+
 /-- `StandardRefinery<MeshPart>(part, parent_mesh)` -/
 def refinePart (M : Mesh) (P : Part) : Option Part :=
   match P.topo with
-  | none => some { targets := (List.range (M.dim + 1)).map (simpleTargets M P), topo := none }
+  | none => some { targets := (List.range (M.dim + 1)).map (simpleTargets M P), topo := none, attr := none }
   | some T =>
     let ts := (List.range (M.dim + 1)).map (topoTargets M P T)
     if ts.any Option.isNone then none
-    else some { targets := ts.map (·.getD []), topo := some (refine T) }
+    else some { targets := ts.map (·.getD []), topo := some (refine T), attr := P.attr.map (fineAttr T) }
+
+/-! ### the mesh-node tree (`RootMeshNode` / `MeshPartNode`) -/
+
+/-- a `MeshPartNode`: a mesh part of the root mesh with child mesh parts, whose targets refer to the entities of
+    the parent PART -/
+structure PartNode where
+  part : Part
+  children : List Part := []
+
+/-- the parent seen by `StandardRefinery<MeshPart>(child, parent_meshpart)`: entity counts of the parent part and
+    its topology if it has one -/
+def Part.asParent (kind : Kind) (dim : Nat) (P : Part) : Mesh :=
+  match P.topo with
+  | some T => T
+  | none => { kind := kind, dim := dim, nums := P.targets.map List.length, verts := [], idxData := [] }
+
+/-- `MeshPartNode::refine(parent)`: `StandardRefinery<MeshPart>` of the node's part against the parent mesh, then
+    every child part against the (coarse) part.  A child with topology below a parent without one is the
+    `XASSERTM(parent_topo != nullptr)` abort. -/
+def refineNode (M : Mesh) (n : PartNode) : Option PartNode :=
+  match refinePart M n.part with
+  | none => none
+  | some p' =>
+    let cs := n.children.map fun ch =>
+      if ch.topo.isSome && n.part.topo.isNone then none else refinePart (n.part.asParent M.kind M.dim) ch
+    if cs.any Option.isNone then none else some { part := p', children := cs.filterMap id }
 
 end FeatModel.Refine
